@@ -319,17 +319,26 @@ struct Sub {
 }
 
 impl event::Subscriber for Sub {
-    type ConnectionContext = ();
+    // true for the first connection of the endpoint: the one the run is about.  Further
+    // connections can appear at the server when the attacker replays a client Initial after the
+    // initial connection id mapping expired (a replayed Initial is a new connection attempt; it
+    // times out on its own and is not the connection under observation).
+    type ConnectionContext = bool;
 
     fn create_connection_context(&mut self, _meta: &events::ConnectionMeta, _info: &events::ConnectionInfo) -> Self::ConnectionContext {
         let mut s = self.sh.lock().unwrap();
-        if s.ep[self.ep].conn_started == 0 {
+        let first = s.ep[self.ep].conn_started == 0;
+        if first {
             s.ep[self.ep].conn_start_us = now_us();
         }
         s.ep[self.ep].conn_started += 1;
+        first
     }
 
-    fn on_connection_closed(&mut self, _c: &mut (), _meta: &events::ConnectionMeta, event: &events::ConnectionClosed) {
+    fn on_connection_closed(&mut self, first: &mut bool, _meta: &events::ConnectionMeta, event: &events::ConnectionClosed) {
+        if !*first {
+            return;
+        }
         let mut s = self.sh.lock().unwrap();
         let e = &mut s.ep[self.ep];
         if e.closed == 0 {
@@ -339,7 +348,10 @@ impl event::Subscriber for Sub {
         }
     }
 
-    fn on_recovery_metrics(&mut self, _c: &mut (), _meta: &events::ConnectionMeta, event: &events::RecoveryMetrics) {
+    fn on_recovery_metrics(&mut self, first: &mut bool, _meta: &events::ConnectionMeta, event: &events::RecoveryMetrics) {
+        if !*first {
+            return;
+        }
         // PTO = smoothed_rtt + max(4*rttvar, 1ms) + max_ack_delay  (RFC 9002 6.2.1), without backoff
         let pto = event.smoothed_rtt.as_micros() as u64
             + (4 * event.rtt_variance.as_micros() as u64).max(1000)
@@ -349,7 +361,10 @@ impl event::Subscriber for Sub {
         e.max_pto_us = e.max_pto_us.max(pto);
     }
 
-    fn on_transport_parameters_received(&mut self, _c: &mut (), _meta: &events::ConnectionMeta, event: &events::TransportParametersReceived) {
+    fn on_transport_parameters_received(&mut self, first: &mut bool, _meta: &events::ConnectionMeta, event: &events::TransportParametersReceived) {
+        if !*first {
+            return;
+        }
         let tp = &event.transport_parameters;
         let mut s = self.sh.lock().unwrap();
         s.ep[self.ep].tp_rx = 1;
@@ -366,7 +381,10 @@ impl event::Subscriber for Sub {
         }
     }
 
-    fn on_packet_received(&mut self, _c: &mut (), _meta: &events::ConnectionMeta, event: &events::PacketReceived) {
+    fn on_packet_received(&mut self, first: &mut bool, _meta: &events::ConnectionMeta, event: &events::PacketReceived) {
+        if !*first {
+            return;
+        }
         if let events::PacketHeader::Handshake { .. } = event.packet_header {
             let mut s = self.sh.lock().unwrap();
             if s.ep[self.ep].handshake_rx_us < 0 {
@@ -389,6 +407,24 @@ struct Icpt {
     ep: usize,
     sh: Sh,
     full: bool, // record frames (stream mode); false: only packet level bookkeeping
+    // internal id of the first connection seen: the connection the run is about.  A replayed
+    // client Initial can make the server open a further connection (a new connection attempt as
+    // far as QUIC is concerned); its packets are not part of the observed connection.
+    primary: Option<u64>,
+}
+
+impl Icpt {
+    fn is_primary(&mut self, subject: &Subject) -> bool {
+        match subject {
+            Subject::Connection { id, .. } => {
+                if self.primary.is_none() {
+                    self.primary = Some(*id);
+                }
+                self.primary == Some(*id)
+            }
+            _ => true,
+        }
+    }
 }
 
 fn space_id(s: PacketNumberSpace) -> u64 {
@@ -493,7 +529,10 @@ impl Icpt {
 }
 
 impl Interceptor for Icpt {
-    fn intercept_rx_payload<'a>(&mut self, _subject: &Subject, packet: &IPacket, payload: DecoderBufferMut<'a>) -> DecoderBufferMut<'a> {
+    fn intercept_rx_payload<'a>(&mut self, subject: &Subject, packet: &IPacket, payload: DecoderBufferMut<'a>) -> DecoderBufferMut<'a> {
+        if !self.is_primary(subject) {
+            return payload;
+        }
         let bytes = payload.into_less_safe_slice();
         let t = now_us();
         {
@@ -510,7 +549,10 @@ impl Interceptor for Icpt {
         DecoderBufferMut::new(bytes)
     }
 
-    fn intercept_tx_payload(&mut self, _subject: &Subject, packet: &IPacket, payload: &mut s2n_codec::encoder::scatter::Buffer) {
+    fn intercept_tx_payload(&mut self, subject: &Subject, packet: &IPacket, payload: &mut s2n_codec::encoder::scatter::Buffer) {
+        if !self.is_primary(subject) {
+            return;
+        }
         let bytes = payload.flatten().as_mut_slice().to_vec();
         {
             let mut s = self.sh.lock().unwrap();
@@ -1044,7 +1086,7 @@ fn start_server(handle: &Handle, c: &AppCfg, sh: &Sh, tls: (String, String)) -> 
         .with_random(Random(Rng::new(c.seed, 2)))?
         .with_stateless_reset_token(ResetTokens(mix(c.seed ^ 0x7e57)))?
         .with_limits(limits(c))?
-        .with_packet_interceptor(Icpt { ep: 1, sh: sh.clone(), full: c.full_records })?
+        .with_packet_interceptor(Icpt { ep: 1, sh: sh.clone(), full: c.full_records, primary: None })?
         .start()?;
     let addr = server.local_addr()?;
     let c = c.clone();
@@ -1089,7 +1131,7 @@ fn start_client(handle: &Handle, c: &AppCfg, sh: &Sh, addr: std::net::SocketAddr
         .with_event(Sub { ep: 0, sh: sh.clone(), peer_conn_window: c.conn_window })?
         .with_random(Random(Rng::new(c.seed, 3)))?
         .with_limits(limits(c))?
-        .with_packet_interceptor(Icpt { ep: 0, sh: sh.clone(), full: c.full_records })?
+        .with_packet_interceptor(Icpt { ep: 0, sh: sh.clone(), full: c.full_records, primary: None })?
         .start()?;
     let c = c.clone();
     let sh = sh.clone();
